@@ -61,3 +61,18 @@ Theorem C02_diff_kernel_text_computes_model : forall A B fuel,
   end.
 Proof. exact Jitdiff_func.k_jitdiff_computes_model. Qed.
 Print Assumptions C02_diff_kernel_text_computes_model.
+
+(* TOTAL correctness of jitunion and jitunion_isets (Inv/Jitunion_total.v, Inv/Jitunion_isets_total.v); jitintersect and
+   jitdiff terminate on every input of their safety precondition (stated in Properties/C15b.v), which with the partial
+   statements above gives the same. *)
+From Verif Require Inv.Jitunion_total Inv.Jitunion_isets_total.
+Theorem C02_union_kernel_text_total : forall A B,
+  exists fuel, run fuel k_jitunion (Jitunion_func.jitunion_args A B) = Return (Jitunion_func.iset_arrays (k_union A B)).
+Proof. exact Jitunion_total.k_jitunion_total. Qed.
+Print Assumptions C02_union_kernel_text_total.
+
+Theorem C02_union_isets_kernel_text_total : forall l,
+  NoDup (firsts l) \/ Forall (fun I => fst I <= snd I) l ->
+  exists fuel, run fuel k_jitunion_isets (Jitunion_isets_func.union_args l) = Return (Jitunion_isets_func.iset_arrays (k_union_n l)).
+Proof. exact Jitunion_isets_total.k_jitunion_isets_total. Qed.
+Print Assumptions C02_union_isets_kernel_text_total.
